@@ -164,34 +164,47 @@ func c06Run(c jCase) (V, Verdict) {
 	jCoqCache.Store(jKey(c), jsepCoq(log))
 	v := Pass("", false)
 	descs, maxSecs, errs := 0, 0, 0
-	for pi := range log.Peers {
-		for k := range log.Peers[pi] {
-			e := &log.Peers[pi][k]
-			if e.Status != "ok" && e.Status != "skipped" {
-				errs++
-			}
-			if e.Text == "" {
-				continue
-			}
-			descs++
-			if e.Local != nil && len(e.Local.Secs) > maxSecs {
-				maxSecs = len(e.Local.Secs)
-			}
-			if sig, what := c06Oracle(e); sig != "" && v.OK {
-				v = Fail(sig, fmt.Sprintf("peer %d call %d: %s", pi, k, what))
-			}
+	remoteDup := 0
+	// in the order the calls were made: the first description that breaks C06 names the cause
+	for _, e := range log.inOrder() {
+		if e.Status != "ok" && e.Status != "skipped" {
+			errs++
 		}
+		if e.Text == "" {
+			continue
+		}
+		descs++
+		if e.Local != nil && len(e.Local.Secs) > maxSecs {
+			maxSecs = len(e.Local.Secs)
+		}
+		sig, what := c06Oracle(e)
+		if sig == "remote-description-repeats-a-mid" {
+			// outside the quantifier (remote descriptions have pairwise distinct mids);
+			// between two pion peers the description that first repeated a mid was
+			// generated - and flagged - earlier, on the other peer
+			remoteDup++
+			continue
+		}
+		if sig != "" && v.OK {
+			v = Fail(sig, fmt.Sprintf("peer %d call %d: %s", e.Op.P, e.Seq, what))
+		}
+	}
+	if sig, what := log.projFailure(); sig != "" && v.OK {
+		v = Fail(sig, what)
 	}
 	if v.OK {
 		v.NonTrivial = descs >= 1 && maxSecs >= 2
 		v.Class = fmt.Sprintf("peers%d/descs%d/maxsecs%d/errs%d", c.Peers, min(descs, 4), min(maxSecs, 4), min(errs, 2))
+		if remoteDup > 0 {
+			v.Class += "/remote-repeats-a-mid"
+		}
 	}
 	return log.V(), v
 }
 
 func c06Corpus() []jCase {
 	sec := func(k, m, d string) jSec { return jSec{Kind: k, Mid: m, Dir: d, Codec: true} }
-	return []jCase{
+	return append([]jCase{
 		// the design probe: remote audio mid "1"; answer; data channel; offer => BUNDLE 1 1
 		{Peers: 1, Ops: []jOp{
 			{Op: "srd", Ty: "offer", Desc: &jDesc{Secs: []jSec{sec("audio", "1", "sendrecv")}, Group: jStr("BUNDLE 1")}},
@@ -231,7 +244,7 @@ func c06Corpus() []jCase {
 			{P: 1, Op: "add", Kind: "video", Dir: "sendonly"},
 			{P: 1, Op: "offer"}, {P: 1, Op: "sld", Ty: "offer"}, {P: 0, Op: "srdpeer", Ty: "offer"},
 			{P: 0, Op: "answer"}, {P: 0, Op: "sld", Ty: "answer"}, {P: 1, Op: "srdpeer", Ty: "answer"}}},
-	}
+	}, jCorpusOps()...)
 }
 
 type c06Num struct {
